@@ -67,7 +67,8 @@ def in_child(fn, timeout: float = 600):
     return code, (json.loads(data) if data else None)
 
 
-def map_job(pdesc, inputs, folder, storage, cleanup, logf, die_after=None, torn=False, record=False, fail=None):
+def map_job(pdesc, inputs, folder, storage, cleanup, logf, die_after=None, torn=False, record=False, fail=None,
+            kinds=None, new_inputs=None):
     """Executed inside a child: one map run, optionally dying after fs operation `die_after`."""
     def job():
         pd = json.loads(json.dumps(pdesc))
@@ -81,11 +82,15 @@ def map_job(pdesc, inputs, folder, storage, cleanup, logf, die_after=None, torn=
         start = len(build.read_log())
         with contextlib.redirect_stdout(io.StringIO()):
             pl = build.make_pipeline(pd)
-        inp = pmap.inputs_to_py(inputs, {n: "list" for n, _ in inputs})
+        inp = pmap.inputs_to_py(new_inputs or inputs, kinds or {n: "list" for n, _ in inputs})
         if die_after is not None or record:
             fsx.install(folder, die_after=die_after, torn=torn, record=record)
         try:
             evs, res = do_map_from(pl, pd, inp, folder, storage, cleanup, start)
+            if new_inputs:
+                for e in evs:
+                    if e["e"] in ("begin", "reject"):
+                        e["new_inputs"] = new_inputs
         finally:
             ops = fsx.uninstall() if (die_after is not None or record) else None
         return {"ev": evs, "ops": ops}
@@ -100,6 +105,8 @@ def do_map_from(pl, pd, inp, folder, storage, cleanup, start):
             res = pl.map(inp, run_folder=folder, storage=storage, parallel=False, cleanup=cleanup)
     except Exception as ex:  # noqa: BLE001
         evs = pmap.log_events(start)
+        if not evs:
+            return [pmap.ev(e="reject", F=fnames, cleanup=cleanup, cls=type(ex).__name__, msg=str(ex)[:300])], ex
         events += evs
         kind = "raise" if any(e["e"] == "fail" for e in evs) else "error"
         events.append(pmap.ev(e=kind, cls=type(ex).__name__, msg=str(ex)[:300],
@@ -258,6 +265,8 @@ def classify(t: dict, reached: int, ops: list) -> dict:
     cp = cps[0] if cps else {}
     sig = {"check": "crash-resume", "event": e["e"], "cls": e.get("cls", ""), "storage": t["meta"]["storage"],
            "ncrashes": len(cps)}
+    if t["meta"].get("changed_inputs"):
+        return {"check": "changed-inputs", "event": e["e"], "inputs_kind": t["meta"]["changed_inputs"]}
     if cp.get("kind") == "fs":
         k = cp["k"]
         op = ops[k - 1] if 0 < k <= len(ops) else ("?", "?", "")
@@ -334,6 +343,30 @@ def run(ctx: Ctx) -> None:
                         opsof.append(ops)
     finally:
         shutil.rmtree(logdir, ignore_errors=True)
+
+    # a kept folder must not be reused for OTHER inputs (stale elements would be served): list and object-ndarray inputs
+    logdir2 = tempfile.mkdtemp(prefix="pfverif_c05chg_")
+    try:
+        for sn in scen_names[:2]:
+            scen, _ = c03.export_schedules(ctx, sn, 1)
+            pdesc = pmap.tla_desc_to_py(scen["desc"])
+            changed = json.loads(json.dumps(scen["inputs"]).replace('"@a_0"', '"@CHANGED"'))
+            if changed == scen["inputs"]:
+                continue
+            for kind in ("list", "ndarray"):
+                kinds = {n: kind for n, _ in scen["inputs"]}
+                folder = tempfile.mkdtemp(prefix="chg_", dir=logdir2)
+                shutil.rmtree(folder)
+                _, p1 = in_child(map_job(pdesc, scen["inputs"], folder, "file_array", True, folder + ".calls", kinds=kinds))
+                _, p2 = in_child(map_job(pdesc, scen["inputs"], folder, "file_array", False, folder + ".calls", kinds=kinds,
+                                         new_inputs=changed))
+                if p1 is None or p2 is None:
+                    raise MachineryError("changed-inputs child failed")
+                hist.append({"desc": scen["desc"], "inputs": scen["inputs"], "ev": p1["ev"] + p2["ev"],
+                             "meta": {"storage": "file_array", "crash": [], "codes": [], "changed_inputs": kind}})
+                opsof.append([])
+    finally:
+        shutil.rmtree(logdir2, ignore_errors=True)
 
     for t in hist:
         k = next((i for i, e in enumerate(t["ev"]) if e["e"] == "interrupt"), None)
